@@ -41,7 +41,7 @@ CRYSTALS = {
     "b2": ((0.9, 1.01), 1.01, (1,)),
     # one mobile chemistry on two INEQUIVALENT sites joined by the jump network (octahedral + 2 tetrahedral
     # interstitial sites of fcc): jumps whose end points have different on-site energies
-    "octtet": ((0.45, 0.55), 0.45, ()),
+    "octtet": ((0.45, 0.55), 0.55, ()),     # two jump types: oct-tet and tet-tet
 }
 NSITES = {"hcp": 2, "octtet": 3}
 if os.environ.get("MCSIM_CRYSTALS"):      # A/B experiments only
@@ -280,6 +280,12 @@ class Run(RunBase):
 
     # ------------------------------------------------------------------ generator
     def propose(self, rng):
+        op = self.propose_inner(rng)
+        if op is not None and op.get("op") in ("update", "trial") and self.prop != "C35":
+            op["as"] = rng.choice(("list", "list", "tuple", "array", "set"))
+        return op
+
+    def propose_inner(self, rng):
         n = self.n
         if not self.started or self.needs_start:
             return self.gen_start(rng)
@@ -446,6 +452,17 @@ class Run(RunBase):
     def _sites(self, lst):
         return [int(i) % self.n for i in lst]
 
+    @staticmethod
+    def _as(kind, sites):
+        """The API takes any iterable of sites: hand them over as list, tuple, numpy array or set."""
+        if kind == "tuple":
+            return tuple(sites)
+        if kind == "array":
+            return np.array(sites, dtype=int)
+        if kind == "set" and len(set(sites)) == len(sites):
+            return set(sites)
+        return list(sites)
+
     def op_trial(self, index, op):
         a, b = self._sites(op["occ"]), self._sites(op["unocc"])
         if self.vacsite is not None and (self.vacsite in a or self.vacsite in b):
@@ -455,7 +472,7 @@ class Run(RunBase):
                 self.unchanged_after_reject(index, "trial-on-vacancy")
                 return "rejected"
             self.fail("reject-not-raised", "deltaE_trial accepted the vacancy site")
-        d = self.mc.deltaE_trial(a, b)
+        d = self.mc.deltaE_trial(self._as(op.get("as"), a), self._as(op.get("as"), b))
         self.probes["trial"] += 1
         return "dE=" + fhex(d)
 
@@ -479,7 +496,9 @@ class Run(RunBase):
             self.probes["multi-site-update"] += 1
         E0 = mc.E()
         announced = mc.deltaE_trial(a, b) if distinct else None
-        mc.update(a, b)
+        mc.update(self._as(op.get("as"), a), self._as(op.get("as"), b))
+        if op.get("as") not in (None, "list"):
+            self.probes["sites-as-" + op["as"]] += 1
         for i in a:
             if self.mocc[i] == 0:
                 self.mocc[i] = 1
